@@ -166,7 +166,12 @@ def deliver(msgs, full_by_uuid, what):
                             "%s: task %s not reported complete when its last message (%d of %d) arrived" % (
                                 what, u, arrived[u], full))
     incomplete = {}
-    for t in parser.incomplete_tasks():
+    try:
+        rest = list(parser.incomplete_tasks())
+    except Exception as e:  # noqa
+        raise Violation(("parser_raised", {"exc": type(e).__name__}),
+                        "%s: Parser.incomplete_tasks raised %s: %s" % (what, type(e).__name__, str(e)[:300]))
+    for t in rest:
         nodes = list(t._nodes.values())
         u = nodes[0].task_uuid
         if u in incomplete or u in returned:
